@@ -1,0 +1,33 @@
+//go:build !verif
+
+package bbolt
+
+import fl "go.etcd.io/bbolt/internal/freelist"
+
+// Verification hooks (build tag `verif`). With the tag off every hook is an
+// empty or identity function that the compiler inlines away, so the shipped
+// behaviour is unchanged. See verif_on.go for the instrumented versions.
+
+const (
+	verifRWLock = iota
+	verifMetaLock
+	verifMmapLock
+)
+
+func verifWrapOps(db *DB) {}
+
+func verifIO(db *DB, op string, arg int64) error { return nil }
+
+func verifLock(db *DB, which int, exclusive bool) {}
+
+func verifYield(db *DB, point string) {}
+
+func verifBatchNew(b *batch) {}
+
+func verifOnceEnter(b *batch) {}
+
+func verifOnceExit(b *batch) {}
+
+func verifOrdered[K comparable, V any](m map[K]V) map[K]V { return m }
+
+func verifObserveFreelist(db *DB, f fl.Interface) fl.Interface { return f }
